@@ -46,8 +46,8 @@ def run_shard(shard, ctx):
 
 def index_lists(D, tier):
     ls = al.all_index_lists(D)
-    if D >= 5:
-        ls = [l for l in ls if len(l) <= 2 or len(l) == D][:150]
+    if D >= 6:
+        ls = [l for l in ls if len(l) <= 2] + [l for l in ls if len(l) > 2][::11]
     return ls
 
 
@@ -61,7 +61,7 @@ def run_marg(shard, ctx):
             tag = ("c05", kind, D, R)
             Sig = objs.spd_batch(D, R, vi, seed, tag, diag=diag)
             mu = objs.vec_batch(D, R, vi, seed, tag)
-            which = ("fresh", "sliced_neg", "updated", "Sigma+Lambda", "queried", "replaced_mu", "prod_conjugate", "conditioned", "prod_linear", "prod_constant", "hadamard_onerank", "multiply_onerank", "joint_of_cond") if (vi == 0 and D <= 3) else ("fresh",)
+            which = ("fresh", "sliced_neg", "updated", "Sigma+Lambda", "queried", "replaced_mu", "prod_conjugate", "conditioned", "prod_linear", "prod_constant", "hadamard_onerank", "multiply_onerank", "joint_of_cond", "hadamard_linear_bcast", "hadamard_linear_bcast>marginal", "hadamard_linear_bcast>slice") if (vi == 0 and D <= 3) else ("fresh",)
             for prep, mkp, mu_e, Sig_e in objs.pdf_variants(kind, Sig, mu, which=which):
                 with ctx.guard("prepare." + prep, dict(prep=prep)) as g:
                     p = mkp()
